@@ -1,15 +1,18 @@
-(* C14 -- totality (partial: the failure modes listed below are excluded by theorems, the remaining ones by the hostile-line search).
-   Proved: no substitution can fail for a nullable pattern (every generated pattern is non-nullable; the AS pattern is non-nullable for non-empty
-   numerals); the $9$ decoder fails only with ValueError (which _anonymize_value catches) and the $9$ encoder never fails on a pseudonym, for EVERY
-   salt string; the address memo never raises from any reachable state (C03).  Not proved: passlib's totality on its documented domain (oracle); totality of the
-   address, word and AS-number stages as wired into process_line (their cores are covered by the theorems above and by C03/C10/C11).
-   Proved in addition (TotalProofs): _anonymize_value -- the function every recognised secret goes through -- returns a result for EVERY raw value, lookup
-   table, reserved list and salt, or reports that the passlib oracle table of the case lacks an entry; it keeps the lookup a table of byte strings. *)
+(* C14 -- totality.  On the executable model of the per-line pipeline, for EVERY text (any code points, any number of lines), every salt and every
+   option set inside the model's domain, processing returns a text: the FileAnonymizer state built by the constructor is well formed, every line keeps it
+   well formed, and the only outcomes other than a line are (a) ORACLE-MISS -- the passlib answers are supplied with each case as a table; a missing entry is
+   a property of the case, not of netconan -- and (b) UnicodeEncodeError from the sensitive-word stage, which is what Python raises when text with lone
+   surrogates is hashed; on valid text the word stage is total too.  Ingredients: all generated patterns non-nullable; the groups the secrets stage reads
+   lie on every path of their pattern (decided on the 57 generated ASTs, sound by RxGroups); values juniper_decrypt accepts are classified type 9 by the
+   generated format function; $9$ decoder fails only with ValueError, encoder total; parsers return numbers of the family's width and the memo never refuses a
+   write under its invariant; a match of the AS pattern spans a listed numeral, which has a map entry.
+   Not proved: passlib's totality on its documented domain (oracle); what happens outside the model's domain (empty word / AS lists, word lists with regex
+   metacharacters) is covered by the search only. *)
 From Coq Require Import String.
 From Coq Require Import List Bool Arith NArith ZArith.
 Import ListNotations.
 Require Import Str Rx RxFacts G_rx JunModel JunProofs TextModel TextProofs Memo MemoProofs.
-Require TotalProofs TotalIp IpModel.
+Require TotalProofs TotalIp IpModel TotalWords TotalAs TotalLine.
 
 Theorem C14_generated_patterns_are_non_nullable : all_sub_patterns_non_nullable = true.
 Proof. exact generated_patterns_non_nullable. Qed.
@@ -60,6 +63,32 @@ Theorem C14_anonymize_value_never_raises : forall orc raw lookup reserved salt,
   end.
 Proof. exact TotalProofs.anonymize_value_never_raises. Qed.
 
+(* the whole pipeline *)
+Theorem C14_every_line_returns_a_line : forall orc f line, TotalProofs.table_bytes orc -> TotalLine.FWF f ->
+  match process_line orc f line with
+  | Done r => TotalLine.FWF (fst r)
+  | Raised e => e = lit "ORACLE-MISS" \/ e = lit "UnicodeEncodeError"
+  end.
+Proof. exact TotalLine.process_line_never_raises. Qed.
+
+Theorem C14_constructed_anonymizer_processes_every_text : forall orc o f lines, TotalProofs.table_bytes orc ->
+  fa_init o = Done f -> o_words o <> Some [] -> o_asnums o <> Some [] ->
+  match anonymize_io orc f lines with
+  | Done r => TotalLine.FWF (fst r)
+  | Raised e => e = lit "ORACLE-MISS" \/ e = lit "UnicodeEncodeError"
+  end.
+Proof. exact TotalLine.constructed_anonymizer_processes_every_text. Qed.
+
+(* on valid text (code points Python can encode) the sensitive-word stage is total *)
+Theorem C14_word_stage_total_on_valid_text : forall a line, TotalWords.wf_words a -> TotalWords.vtext line -> exists out, anonymize_words_line a line = Done out.
+Proof. exact TotalWords.anonymize_words_line_never_raises. Qed.
+
+(* non-vacuity: a constructor call with every feature on succeeds in the model *)
+Example C14_a_full_option_set_constructs :
+  match fa_init {| o_pwd := true; o_ip := true; o_undo := false; o_salt := lit "s"; o_words := Some [lit "sea"]; o_asnums := Some [lit "65001"];
+                   o_reserved := None; o_prefixes := None; o_networks := None; o_b4 := 8; o_b6 := 8 |} with Done _ => true | Raised _ => false end = true.
+Proof. vm_compute. reflexivity. Qed.
+
 Print Assumptions C14_generated_patterns_are_non_nullable.
 Print Assumptions C14_juniper_decrypt_fails_only_with_ValueError.
 Print Assumptions C14_juniper_encrypt_total_for_every_salt.
@@ -69,3 +98,6 @@ Print Assumptions C14_decryptable_values_are_classified_juniper.
 Print Assumptions C14_anonymize_value_never_raises.
 Print Assumptions C14_secrets_stage_never_raises.
 Print Assumptions C14_address_stage_never_raises.
+Print Assumptions C14_every_line_returns_a_line.
+Print Assumptions C14_constructed_anonymizer_processes_every_text.
+Print Assumptions C14_word_stage_total_on_valid_text.
